@@ -56,6 +56,7 @@ CloseRet == /\ IsEvent("closeret") /\ ~closed
             /\ (Ev.callback /\ damaged = {}) =>
                    /\ pre /\ post                                       \* everything was delivered before close() returned
                    /\ want \subseteq started /\ started = ended                \* every processed member (delivered ones included): one start, one end
+                   /\ ("streamless" \in DOMAIN Traces[tid][1] => ToSet(Traces[tid][1].streamless) \subseteq started)   \* directories and empty files of a full extraction too
                    /\ usum = SumOver(want)                              \* the update events add up to the bytes of the delivered members
             /\ closed' = TRUE
             /\ UNCHANGED <<sizes, damaged, want, started, ended, usum, pre, post, resulted, round>>
